@@ -10,3 +10,5 @@ ASSUMPTIONS = [
     'A4 bit-field layout of the packed state union as CBMC and gcc lay it out (checked by lemma_layout against shift/mask)',
     'park/unpark contract (DESIGN.md 4.2) TRUSTED here, enforced under C01',
 ]
+# obligation groups of other properties' specifications that this property also rests on (its anchors name those files); see DESIGN.md 11.2
+IMPORTS = [dict(prop='C01', groups=['wait_in_mpsc', 'wake_from_mpsc', 'maintenance', 'maintenance_migrating_unlock'])]
